@@ -190,7 +190,7 @@ func scenario(s shape, target string, q, t vrt.Bounds) *vrt.Scenario {
 	}
 	return &vrt.Scenario{Name: s.name + "-" + target, Prop: "C02", Body: body, Check: check, Quick: q, Thorough: t,
 		Setup:          coresim.ResetStore,
-		Cfg:            vrt.Config{Preempt: coresim.InterComponent, FreeSwitchCost: true, Horizon: 30 * time.Minute},
+		Cfg:            vrt.Config{Preempt: coresim.InterComponent, NoLockPoints: true, FreeSwitchCost: true, Horizon: 30 * time.Minute},
 		DeadlockClause: "request-hangs:" + target, PanicClause: "panic",
 		NonTrivial: func(x *vrt.Exec) bool { return reached },
 		Doc:        fmt.Sprintf("shape %s, outcomes assigned at %s", s.name, target)}
@@ -202,7 +202,7 @@ func emptyScenario() *vrt.Scenario {
 	var vts []time.Duration
 	return &vrt.Scenario{Name: "0-all", Prop: "C02", Doc: "workflow with nothing to command: every transition must succeed at once",
 		Setup: coresim.ResetStore,
-		Cfg:   vrt.Config{Preempt: coresim.InterComponent, FreeSwitchCost: true, Horizon: 30 * time.Minute},
+		Cfg:   vrt.Config{Preempt: coresim.InterComponent, NoLockPoints: true, FreeSwitchCost: true, Horizon: 30 * time.Minute},
 		Quick: vrt.Bounds{Dev: 0, Seconds: 60}, Thorough: vrt.Bounds{Dev: 1, Seconds: 300},
 		DeadlockClause: "nothing-to-command-but-request-hangs", PanicClause: "panic",
 		Body: func() {
